@@ -1156,14 +1156,37 @@ buildCommand(BuildContext& context, ninja::Command* command) {
         // Get the result.
         BuildValue result = computeCommandResult(commandHash);
 
-        // If any output is missing, then we always want to force the change to
-        // propagate.
+        // A phony command whose output is not a file stands for its inputs, as
+        // in Ninja: it is as new as the newest of them, so that a command which
+        // depends on the alias re-runs when one of them changes and not
+        // otherwise. Only when there is nothing behind a missing output do we
+        // always force the change to propagate.
         bool forceChange = false;
-        for (unsigned i = 0, e = result.getNumOutputs(); i != e; ++i) {
-            if (result.getNthOutputInfo(i).isMissing()) {
-                forceChange = true;
-                break;
+        bool hasInputTime =
+          newestModTime.seconds != 0 || newestModTime.nanoseconds != 0;
+        unsigned numOutputs = result.getNumOutputs();
+        std::vector<FileInfo> outputInfos(numOutputs);
+        bool substituted = false;
+        for (unsigned i = 0; i != numOutputs; ++i) {
+          outputInfos[i] = result.getNthOutputInfo(i);
+          if (outputInfos[i].isMissing()) {
+            if (hasInputTime) {
+              outputInfos[i].modTime = newestModTime;
+              substituted = true;
+            } else {
+              forceChange = true;
             }
+          }
+        }
+        if (substituted) {
+          if (numOutputs == 1)
+            return ti.complete(BuildValue::makeSuccessfulCommand(
+                                   outputInfos[0], commandHash).toValue(),
+                               forceChange);
+          return ti.complete(BuildValue::makeSuccessfulCommand(
+                                 outputInfos.data(), numOutputs,
+                                 commandHash).toValue(),
+                             forceChange);
         }
 
         return ti.complete(result.toValue(), forceChange);
